@@ -17,7 +17,7 @@ FLine_New(cfg) == [state |-> "flInit", status |-> 0, mno |-> MUndef, method |-> 
 FLine_Reset(st) == FLine_New(<<>>)                                  \* *fl = PFLine{}
 FLine_Obs(st) == [Status |-> st.status, MethodNo |-> st.mno, Method |-> PFObs(st.method), URI |-> PFObs(st.uri),
                   Version |-> PFObs(st.version), StatusCode |-> PFObs(st.scode), Reason |-> PFObs(st.reason),
-                  Request |-> st.status = 0,                       \* NOTE: Request() is Status == 0, see FLineDeclKind
+                  Request |-> PFEmpty(st.scode),                   \* Request() is StatusCode.Empty() (was Status == 0 before the 000 fix)
                   Empty |-> st.state = "flInit", Parsed |-> st.state = "flFIN",
                   Pending |-> st.state \notin {"flInit", "flFIN"}]
 FLine_Panicked(st) == IsPanicF(st.method) \/ IsPanicF(st.uri) \/ IsPanicF(st.version) \/ IsPanicF(st.scode)
